@@ -7,7 +7,7 @@ namespace Rbgp.Gr.Restarting
 open Rbgp.Gr.Restarting.Spec
 
 /-- The relation kept between a model state and the reference bookkeeping. -/
-structure Rel (s : St) (r : R) : Prop where
+structure Rel (cfg : Cfg) (s : St) (r : R) : Prop where
   sd_some : ∀ m, s.sd = some m → m ≠ .completed ∧ WFp (pendingOf m) ∧ pendingOf m ≠ [] ∧
       (∀ x, x ∈ pairs (pendingOf m) ↔ x ∈ r.waiting) ∧ (r.started = true ↔ isDeferring m = true)
   sd_none : s.sd = none → r.waiting = []
@@ -16,6 +16,9 @@ structure Rel (s : St) (r : R) : Prop where
   held_iff : ∀ f, held r f = true ↔ holds f r.waiting = true
   up_inv : r.started = false → ∀ e ∈ r.up, tracked r e.1 = false
   univ : ∀ f ∈ r.deferred, f ∈ s.univ
+  timer : s.timer = r.timer
+  timer_wait : r.timer = true → r.waiting ≠ []
+  dur : ∀ pend d, s.sd = some (.awaiting pend d) → d = effDur cfg.dur
 
 theorem holds_iff {f : Fam} {w : List (Peer × Fam)} : holds f w = true ↔ ∃ p, (p, f) ∈ w := by
   simp only [holds, List.any_eq_true, decide_eq_true_eq]
@@ -112,48 +115,102 @@ theorem held_after {r1 : R} {rn : List Fam} (f : Fam) :
   cases r1.deferred.contains f <;> cases r1.released.contains f <;> cases rn.contains f <;> rfl
 
 /-- the reference state after a checked step -/
-def advance (r : R) (e : Ev) : R :=
+def advance (cfg : Cfg) (r : R) (e : Ev) : R :=
   let r1 := next r e
-  { r1 with released := r1.released ++ releasedNow r r1 }
+  { r1 with released := r1.released ++ releasedNow r r1, timer := timerAfter cfg r r1 }
 
-theorem inputOk_of_wf {cfg : Cfg} {s : St} {r : R} (hr : Rel s r) {m : RInner} (hm : s.sd = some m)
+theorem held_advance (cfg : Cfg) (r : R) (e : Ev) (f : Fam) :
+    held (advance cfg r e) f = (held (next r e) f && !(releasedNow r (next r e)).contains f) := by
+  simp only [held, advance, List.contains_append]
+  cases (next r e).deferred.contains f <;> cases (next r e).released.contains f <;>
+    cases (releasedNow r (next r e)).contains f <;> rfl
+
+theorem next_timer (r : R) (e : Ev) : (next r e).timer = r.timer := by
+  cases e with
+  | rd i => cases i <;> rfl
+  | ins p f n => simp only [next]; split <;> rfl
+  | rm p f n => rfl
+  | drop p f => rfl
+
+/-- the reference `started` flag: set by the first helper that establishes and is still waited for -/
+theorem next_started (r : R) (i : RIn) :
+    (next r (.rd i)).started = true ↔
+      (r.started = true ∨ ∃ p fams, i = .est p fams ∧ ∃ f, (p, f) ∈ (next r (.rd i)).waiting) := by
+  cases i with
+  | est p fams =>
+      simp only [next, Bool.or_eq_true, List.any_eq_true, decide_eq_true_eq, RIn.est.injEq]
+      constructor
+      · rintro (h | ⟨e, he, rfl⟩)
+        · exact Or.inl h
+        · exact Or.inr ⟨e.1, fams, ⟨rfl, rfl⟩, e.2, he⟩
+      · rintro (h | ⟨q, fams', ⟨rfl, rfl⟩, f, hf⟩)
+        · exact Or.inl h
+        · exact Or.inr ⟨(_, f), hf, rfl⟩
+  | eor p f => simp [next]
+  | wd p => simp [next]
+  | timer => simp [next]
+
+theorem sdt_eq (d : Option Nat) : selectionDeferralTime d = effDur d := by
+  cases d with
+  | none => rfl
+  | some n => cases n <;> rfl
+
+theorem waiting_ne_nil {cfg : Cfg} {s : St} {r : R} (hr : Rel cfg s r) {m : RInner} (hm : s.sd = some m) :
+    r.waiting ≠ [] := by
+  obtain ⟨_, hw, hne, hp, _⟩ := hr.sd_some m hm
+  intro h0
+  apply hne
+  apply pend_nil_of_pairs_nil hw
+  apply eq_nil_of_forall_not_mem
+  intro x hx
+  have := (hp x).mp hx
+  rw [h0] at this; simp at this
+
+theorem inputOk_of_wf {cfg : Cfg} {s : St} {r : R} (hr : Rel cfg s r) {m : RInner} (hm : s.sd = some m)
     {i : RIn} (hwf : wf cfg r (.rd i) = true) : InputOk m i := by
   intro pend dur hma
   obtain ⟨_, hw, _, hp, hst⟩ := hr.sd_some m hm
+  have hwne := waiting_ne_nil hr hm
   have hns : r.started = false := by
     cases h : r.started with
     | false => rfl
     | true => have := hst.mp h; simp [hma, isDeferring] at this
   refine ⟨?_, ?_⟩
   · rintro rfl
-    simp [wf, hns] at hwf
+    have hie : r.waiting.isEmpty = false := by
+      cases h : r.waiting with
+      | nil => exact absurd h hwne
+      | cons a l => rfl
+    simp [wf, hns, hie] at hwf
   · rintro p f rfl
-    simp only [wf] at hwf
-    cases hu : upFams r p with
-    | none => simp [hu] at hwf
-    | some fs =>
-        simp only [upFams, Option.map_eq_some_iff] at hu
-        obtain ⟨e, he, rfl⟩ := hu
-        have hmem := List.mem_of_find?_eq_some he
-        have hpe : e.1 = p := by simpa using List.find?_some he
-        have hnt := hr.up_inv hns e hmem
-        rw [hpe] at hnt
-        cases hl : lookup p pend with
-        | none => rfl
-        | some set =>
-            exfalso
-            subst hma
-            have hset := hw.sets _ (mem_of_lookup_some hl)
-            cases hs : set with
-            | nil => exact hset.1 hs
-            | cons g rest =>
-                have : (p, g) ∈ pairs pend := (mem_pairs_self hw hl).mpr (by simp [hs])
-                have : tracked r p = true := tracked_iff.mpr ⟨g, (hp _).mp this⟩
-                rw [hnt] at this; cases this
+    cases hl : lookup p pend with
+    | none => rfl
+    | some set =>
+        exfalso
+        subst hma
+        have hset := hw.sets _ (mem_of_lookup_some hl)
+        have htr : tracked r p = true := by
+          cases hs : set with
+          | nil => exact absurd hs hset.1
+          | cons g rest =>
+              have : (p, g) ∈ pairs pend := (mem_pairs_self hw hl).mpr (by simp [hs])
+              exact tracked_iff.mpr ⟨g, (hp _).mp this⟩
+        simp only [wf, htr, Bool.not_true, Bool.false_or] at hwf
+        cases hu : upFams r p with
+        | none => simp [hu] at hwf
+        | some fs =>
+            simp only [upFams, Option.map_eq_some_iff] at hu
+            obtain ⟨e, he, rfl⟩ := hu
+            have hmem := List.mem_of_find?_eq_some he
+            have hpe : e.1 = p := by simpa using List.find?_some he
+            have hnt := hr.up_inv hns e hmem
+            rw [hpe, htr] at hnt; cases hnt
 
-theorem step_rd {cfg : Cfg} {s : St} {r : R} (hr : Rel s r) (i : RIn) (hwf : wf cfg r (.rd i) = true) :
-    stepOk (some (.rd i)) r (next r (.rd i)) (step s (.rd i)).2 = .ok () ∧
-    Rel (step s (.rd i)).1 (advance r (.rd i)) := by
+theorem tagOf_ne_absent (m : RInner) : tagOf m ≠ .absent := by cases m <;> simp [tagOf]
+
+theorem step_rd {cfg : Cfg} {s : St} {r : R} (hr : Rel cfg s r) (i : RIn) (hwf : wf cfg r (.rd i) = true) :
+    stepOk cfg (some (.rd i)) r (next r (.rd i)) (step s (.rd i)).2 = .ok () ∧
+    Rel cfg (step s (.rd i)).1 (advance cfg r (.rd i)) := by
   have hw1 : (next r (.rd i)).waiting = nextW r.waiting i := next_waiting r i
   cases hsd : s.sd with
   | none =>
@@ -166,19 +223,36 @@ theorem step_rd {cfg : Cfg} {s : St} {r : R} (hr : Rel s r) (i : RIn) (hwf : wf 
         | true => have := (hr.held_iff f).mp h; simp [hw0, holds] at this
       have hrn : releasedNow r (next r (.rd i)) = [] :=
         eq_nil_of_forall_not_mem fun f hf => by simpa [hnoheld f] using (mem_releasedNow.mp hf).1
+      have hrt : r.timer = false := by
+        cases h : r.timer with
+        | false => rfl
+        | true => exact absurd hw0 (hr.timer_wait h)
+      have hst' : (next r (.rd i)).started = r.started := by
+        rw [Bool.eq_iff_iff, next_started]
+        constructor
+        · rintro (h | ⟨p, fams, _, f, hf⟩)
+          · exact h
+          · rw [hw'] at hf; simp at hf
+        · exact Or.inl
+      have htA : timerAfter cfg r (next r (.rd i)) = false := by simp [timerAfter, hw']
       have hstep : step s (.rd i) =
           (s, { outs := [], changes := [], tag := .absent, pending := [], installed := false,
-                flags := flagsOf s.tabs s.univ }) := by
-        simp [step, hsd]
+                flags := flagsOf s.tabs s.univ, timer := s.timer }) := by
+        simp [step, hsd, obsOf]
       rw [hstep]
       refine ⟨stepOk_ok (by simp) (fun f _ h => by simp [hnoheld f] at h) (by simp [hrn]) (by simp [hrn])
-        (fun f _ _ => ⟨by simp [mentions], by simp⟩) (by simp) (by simp) (fun _ => by simp), ?_⟩
-      have hadv : advance r (.rd i) = next r (.rd i) := by simp [advance, hrn]
+        (fun f _ _ => ⟨by simp [mentions], by simp⟩) (by simp) (by simp) (fun _ => by simp) (by simp)
+        (fun h => absurd hw' h) (by simp [hst']) (by simp only; rw [htA, hr.timer, hrt]) (fun h => by cases h), ?_⟩
+      have hadv : advance cfg r (.rd i) = next r (.rd i) := by
+        have : (next r (.rd i)).timer = false := by rw [next_timer, hrt]
+        simp [advance, hrn, htA, ← this]
       rw [hadv]
       have hheld' : ∀ f, held (next r (.rd i)) f = held r f := by
         intro f; simp [held, next_rd_deferred, next_rd_released]
       refine ⟨fun m hm => by simp [hsd] at hm, fun _ => hw', fun f => by rw [hheld']; exact hr.flags f,
-        fun f n p => by rw [next_rd_rib]; exact hr.rib f n p, fun f => ?_, fun _ e he => ?_, fun f hf => ?_⟩
+        fun f n p => by rw [next_rd_rib]; exact hr.rib f n p, fun f => ?_, fun _ e he => ?_, fun f hf => ?_,
+        (by rw [next_timer]; exact hr.timer), (fun h => by rw [next_timer, hrt] at h; cases h),
+        (fun pend d h => by simp [hsd] at h)⟩
       · rw [hheld', hnoheld f, hw']; simp [holds]
       · simp [tracked, hw']
       · rw [next_rd_deferred] at hf; exact hr.univ f hf
@@ -186,39 +260,144 @@ theorem step_rd {cfg : Cfg} {s : St} {r : R} (hr : Rel s r) (i : RIn) (hwf : wf 
       obtain ⟨hmc, hw, hne, hp, hst⟩ := hr.sd_some m hsd
       have hi := inputOk_of_wf hr hsd hwf
       have sp := process_spec m i hw (fun _ => hne) hi
+      have htag0 := process_tag m i hw
+      have hpst := process_startTimer m i
       obtain ⟨cs, tail, hsh⟩ := sp.shape
-      generalize hm' : (process m i).1 = m' at sp
-      generalize houts : (process m i).2 = outs at sp hsh
+      generalize hm' : (process m i).1 = m' at sp htag0 hpst
+      generalize houts : (process m i).2 = outs at sp hsh hpst
       have ha := applyOuts_spec { s with sd := some m' } outs
       obtain ⟨e1, e2, e3⟩ := endDeferralFamilies_spec (relFams outs) s.tabs
-      -- the step, spelled out
-      have hstep : step s (.rd i) =
-          ((applyOuts { s with sd := some m' } outs).1,
-           { outs := outs, changes := (applyOuts { s with sd := some m' } outs).2, tag := tagOf m',
-             pending := pendingOf m', installed := (applyOuts { s with sd := some m' } outs).1.sd.isSome,
-             flags := flagsOf (applyOuts { s with sd := some m' } outs).1.tabs s.univ }) := by
-        simp [step, hsd, hm', houts]
+      generalize hA : applyOuts { s with sd := some m' } outs = A at ha
+      have hstep : step s (.rd i) = (A.1, obsOf A.1 outs A.2) := by
+        simp [step, hsd, hm', houts, hA]
       rw [hstep]
-      obtain ⟨ha1, ha2, ha3, ha4⟩ := ha
-      simp only at ha1 ha2 ha3 ha4
+      obtain ⟨ha1, ha2, ha3, ha4, ha5⟩ := ha
+      simp only at ha1 ha2 ha3 ha4 ha5
       -- pairs of the new machine vs. the new waiting list
       have hp' : ∀ x, x ∈ pairs (pendingOf m') ↔ x ∈ (next r (.rd i)).waiting := by
         intro x; rw [sp.pairs, hw1]; exact nextW_congr hp i x
       have hsub : ∀ x, x ∈ (next r (.rd i)).waiting → x ∈ r.waiting := by
         intro x hx; rw [hw1] at hx; exact nextW_sub hx
+      -- the machine is done exactly when nothing is waited for any more
+      have hdone : m' = .completed ↔ (next r (.rd i)).waiting = [] := by
+        constructor
+        · intro h
+          apply eq_nil_of_forall_not_mem
+          intro x hx
+          have := (hp' x).mpr hx
+          simp [h, pendingOf, pairs] at this
+        · intro hwn
+          have hpn : pendingOf m' = [] :=
+            pend_nil_of_pairs_nil sp.wf (eq_nil_of_forall_not_mem fun x hx => by
+              have := (hp' x).mp hx; rw [hwn] at this; simp at this)
+          cases hm'c : m' with
+          | completed => rfl
+          | awaiting q d => exact absurd hpn (sp.nonempty (by simp [hm'c]))
+          | deferring q => exact absurd hpn (sp.nonempty (by simp [hm'c]))
+      have hendc : (endRemaining outs).isSome = true ↔ m' = .completed := sp.ended hmc
+      -- what is observed of the machine after the glue ran
+      have hobs : ∃ T P I, obsOf A.1 outs A.2 =
+            { outs := outs, changes := A.2, tag := T, pending := P, installed := I,
+              flags := flagsOf A.1.tabs s.univ, timer := A.1.timer } ∧
+            (m' = .completed → T = .absent ∧ P = [] ∧ I = false) ∧
+            (m' ≠ .completed → T = tagOf m' ∧ P = pendingOf m' ∧ I = true) := by
+        by_cases hend : (endRemaining outs).isSome = true
+        · have hsdA : A.1.sd = none := by rw [ha3]; simp [hend]
+          exact ⟨.absent, [], false, by simp [obsOf, hsdA, ha4], fun _ => ⟨rfl, rfl, rfl⟩,
+            fun h => absurd (hendc.mp hend) h⟩
+        · have hsdA : A.1.sd = some m' := by rw [ha3]; simp [hend]
+          exact ⟨tagOf m', pendingOf m', true, by simp [obsOf, hsdA, ha4],
+            fun h => absurd (hendc.mpr h) hend, fun _ => ⟨rfl, rfl, rfl⟩⟩
+      obtain ⟨T, P, I, hobsEq, hoC, hoN⟩ := hobs
+      rw [hobsEq]
       -- released families
       have hrel : ∀ f, f ∈ relFams outs ↔ f ∈ releasedNow r (next r (.rd i)) := by
         intro f
         rw [sp.rel_mem, mem_releasedNow, holdsP_iff_holds hp, holdsP_iff_holds hp', hr.held_iff]
         simp
-      have hfl : ∀ f, ((applyOuts { s with sd := some m' } outs).1.tabs f).deferring =
-          (if f ∈ relFams outs then false else held r f) := by
+      have hfl : ∀ f, (A.1.tabs f).deferring = (if f ∈ relFams outs then false else held r f) := by
         intro f; rw [ha1, e2, hr.flags]
-      have hpa : ∀ f, ((applyOuts { s with sd := some m' } outs).1.tabs f).paths = (s.tabs f).paths := by
+      have hpa : ∀ f, (A.1.tabs f).paths = (s.tabs f).paths := by
         intro f; rw [ha1, e1]
-      have hch : (applyOuts { s with sd := some m' } outs).2 =
-          (relFams outs).flatMap fun g => announce g (s.tabs g).paths := by rw [ha2, e3]
-      refine ⟨stepOk_ok ?_ ?_ ?_ ?_ ?_ ?_ ?_ ?_, ?_⟩
+      have hch : A.2 = (relFams outs).flatMap fun g => announce g (s.tabs g).paths := by rw [ha2, e3]
+      -- the `started` flag of the reference follows the machine leaving `AwaitingStart`
+      have hstd : (next r (.rd i)).started = true ↔ (r.started = true ∨ isDeferring m' = true) := by
+        rw [next_started]
+        by_cases hc : m' = .completed
+        · have hwn := hdone.mp hc
+          constructor
+          · rintro (h | ⟨p, fams, _, f, hf⟩)
+            · exact Or.inl h
+            · rw [hwn] at hf; simp at hf
+          · rintro (h | h)
+            · exact Or.inl h
+            · simp [hc, isDeferring] at h
+        · have htag := htag0 hc
+          constructor
+          · rintro (h | ⟨p, fams, rfl, f, hf⟩)
+            · exact Or.inl h
+            · exact Or.inr (htag.mpr (Or.inr ⟨p, fams, rfl, f, (hp' _).mpr hf⟩))
+          · rintro (h | h)
+            · exact Or.inl h
+            · rcases htag.mp h with h | ⟨p, fams, rfl, f, hf⟩
+              · exact Or.inl (hst.mpr h)
+              · exact Or.inr ⟨p, fams, rfl, f, (hp' _).mp hf⟩
+      have hflt : outs.filter isStartTimer =
+          (if (!r.started && (next r (.rd i)).started) = true then [.startTimer (effDur cfg.dur)] else []) := by
+        rw [hpst]
+        cases m with
+        | completed => exact absurd rfl hmc
+        | deferring pd =>
+            have : r.started = true := hst.mpr rfl
+            simp [this]
+        | awaiting pd d =>
+            have hd := hr.dur pd d hsd
+            have hns : r.started = false := by
+              cases h : r.started with
+              | false => rfl
+              | true => have := hst.mp h; simp [isDeferring] at this
+            have : (next r (.rd i)).started = isDeferring m' := by
+              rw [Bool.eq_iff_iff, hstd]; simp [hns]
+            simp [hns, this, hd]
+      have htm : A.1.timer = timerAfter cfg r (next r (.rd i)) := by
+        rw [ha5, hr.timer]
+        by_cases hsn : (!r.started && (next r (.rd i)).started) = true
+        · rw [if_pos hsn] at hflt
+          rw [startsTimer_iff _ _ hflt]
+          have hdef : isDeferring m' = true := by
+            simp only [Bool.and_eq_true, Bool.not_eq_eq_eq_not, Bool.not_true] at hsn
+            rcases hstd.mp hsn.2 with h | h
+            · rw [hsn.1] at h; cases h
+            · exact h
+          have hnc : m' ≠ .completed := by rintro rfl; simp [isDeferring] at hdef
+          have hend : (endRemaining outs).isSome = false := by
+            cases h : (endRemaining outs).isSome with
+            | false => rfl
+            | true => exact absurd (hendc.mp h) hnc
+          have hwne : (next r (.rd i)).waiting.isEmpty = false := by
+            cases h : (next r (.rd i)).waiting with
+            | nil => exact absurd (hdone.mpr h) hnc
+            | cons a l => rfl
+          simp only [Bool.and_eq_true, Bool.not_eq_eq_eq_not, Bool.not_true] at hsn
+          simp only [timerAfter, hwne, hsn.1, hsn.2, hend]
+          cases (effDur cfg.dur).isSome <;> simp
+        · rw [if_neg hsn] at hflt
+          rw [startsTimer_false _ hflt]
+          have hsn' : (!r.started && (next r (.rd i)).started) = false := by simpa using hsn
+          by_cases hc : m' = .completed
+          · have hend := hendc.mpr hc
+            simp [timerAfter, hdone.mp hc, hend]
+          · have hend : (endRemaining outs).isSome = false := by
+              cases h : (endRemaining outs).isSome with
+              | false => rfl
+              | true => exact absurd (hendc.mp h) hc
+            have hwne : (next r (.rd i)).waiting.isEmpty = false := by
+              cases h : (next r (.rd i)).waiting with
+              | nil => exact absurd (hdone.mpr h) hc
+              | cons a l => rfl
+            simp only [timerAfter, hwne, hend, Bool.false_eq_true, ↓reduceIte, Bool.not_false, Bool.true_and]
+            rw [hsn']; simp
+      refine ⟨stepOk_ok ?_ ?_ ?_ ?_ ?_ ?_ ?_ ?_ ?_ ?_ hflt htm (fun h => by cases h), ?_⟩
       · intro c hc _
         simp only at hc; rw [hch] at hc
         exact (hrel _).mp (mem_flatMap_announce_fam hc)
@@ -247,36 +426,43 @@ theorem step_rd {cfg : Cfg} {s : St} {r : R} (hr : Rel s r) (i : RIn) (hwf : wf 
           intro hcf; exact hnr' (hcf ▸ mem_flatMap_announce_fam hc)
       · intro e he
         simp only at he
-        have hset := sp.wf.sets e he
-        refine ⟨?_, hset.1⟩
-        cases hs : e.2 with
-        | nil => exact absurd hs hset.1
-        | cons g rest =>
-            exact tracked_iff.mpr ⟨g, (hp' _).mp (mem_pairs.mpr ⟨e.2, he, by simp [hs]⟩)⟩
+        by_cases hc : m' = .completed
+        · rw [(hoC hc).2.1] at he; simp at he
+        · rw [(hoN hc).2.1] at he
+          have hset := sp.wf.sets e he
+          refine ⟨?_, hset.1⟩
+          cases hs : e.2 with
+          | nil => exact absurd hs hset.1
+          | cons g rest =>
+              exact tracked_iff.mpr ⟨g, (hp' _).mp (mem_pairs.mpr ⟨e.2, he, by simp [hs]⟩)⟩
       · intro ht
         simp only at ht ⊢
-        apply sp.nonempty
-        rintro rfl
-        simp [tagOf] at ht
+        by_cases hc : m' = .completed
+        · rw [(hoC hc).1] at ht; simp at ht
+        · rw [(hoN hc).2.1]; exact sp.nonempty hc
       · intro hwn
-        have hpn : pendingOf m' = [] :=
-          pend_nil_of_pairs_nil sp.wf (eq_nil_of_forall_not_mem fun x hx => by
-            have := (hp' x).mp hx; rw [hwn] at this; simp at this)
-        have hmc' : m' = .completed := by
-          cases hm'c : m' with
-          | completed => rfl
-          | awaiting q d => exact absurd hpn (sp.nonempty (by simp [hm'c]))
-          | deferring q => exact absurd hpn (sp.nonempty (by simp [hm'c]))
-        have hend := (sp.ended hmc).mpr hmc'
+        have hc := hdone.mpr hwn
+        obtain ⟨a, _, c⟩ := hoC hc
         simp only
-        refine ⟨by simp [hmc', tagOf], by simp [hmc', tagOf], ?_⟩
-        rw [ha3, hend]; simp
+        exact ⟨by simp [a], by simp [a], c⟩
+      · simp only
+        by_cases hc : m' = .completed
+        · rw [(hoC hc).1]; simp
+        · rw [(hoN hc).1]; cases m' <;> simp_all [tagOf]
+      · intro hwn
+        have hc : m' ≠ .completed := fun h => hwn (hdone.mp h)
+        obtain ⟨a, _, c⟩ := hoN hc
+        simp only
+        exact ⟨by rw [a]; exact tagOf_ne_absent m', c⟩
       -- the relation afterwards
-      · have hadvw : (advance r (.rd i)).waiting = (next r (.rd i)).waiting := rfl
-        have hheld : ∀ f, held (advance r (.rd i)) f = (held r f && !(relFams outs).contains f) := by
+      · have hadvw : (advance cfg r (.rd i)).waiting = (next r (.rd i)).waiting := rfl
+        have hheld : ∀ f, held (advance cfg r (.rd i)) f = (held r f && !(relFams outs).contains f) := by
           intro f
-          have h1 : held (advance r (.rd i)) f =
-              (held (next r (.rd i)) f && !(releasedNow r (next r (.rd i))).contains f) := held_after f
+          have h1 : held (advance cfg r (.rd i)) f =
+              (held (next r (.rd i)) f && !(releasedNow r (next r (.rd i))).contains f) := by
+            simp only [held, advance, List.contains_append]
+            cases (next r (.rd i)).deferred.contains f <;> cases (next r (.rd i)).released.contains f <;>
+              cases (releasedNow r (next r (.rd i))).contains f <;> rfl
           have h2 : held (next r (.rd i)) f = held r f := by
             simp [held, next_rd_deferred, next_rd_released]
           rw [h1, h2]
@@ -284,46 +470,28 @@ theorem step_rd {cfg : Cfg} {s : St} {r : R} (hr : Rel s r) (i : RIn) (hwf : wf 
           · simp [hf, (hrel f).mp hf]
           · have : f ∉ releasedNow r (next r (.rd i)) := fun h => hf ((hrel f).mpr h)
             simp [hf, this]
-        refine ⟨?_, ?_, ?_, ?_, ?_, ?_, ?_⟩
+        refine ⟨?_, ?_, ?_, ?_, ?_, ?_, ?_, htm, ?_, ?_⟩
         · intro m2 hm2
-          simp only at hm2
           rw [ha3] at hm2
           by_cases hend : (endRemaining outs).isSome = true
           · simp [hend] at hm2
           · simp only [hend, Bool.false_eq_true, ↓reduceIte, Option.some.injEq] at hm2
             subst hm2
-            have hnc : m' ≠ .completed := fun h => hend ((sp.ended hmc).mpr h)
+            have hnc : m' ≠ .completed := fun h => hend (hendc.mpr h)
             refine ⟨hnc, sp.wf, sp.nonempty hnc, fun x => by rw [hadvw]; exact hp' x, ?_⟩
-            have htag := process_tag m i hw (by rw [hm']; exact hnc)
-            rw [hm'] at htag
-            rw [htag, ← hst]
-            cases i with
-            | est p fams =>
-                simp only [advance, next, Bool.or_eq_true, List.any_eq_true, decide_eq_true_eq, RIn.est.injEq]
-                constructor
-                · rintro (h | ⟨e, he, rfl⟩)
-                  · exact Or.inl h
-                  · refine Or.inr ⟨e.1, fams, ⟨rfl, rfl⟩, e.2, (hp' _).mpr ?_⟩
-                    simpa [next] using he
-                · rintro (h | ⟨q, fams', ⟨rfl, rfl⟩, f, hf⟩)
-                  · exact Or.inl h
-                  · refine Or.inr ⟨(_, f), ?_, rfl⟩
-                    simpa [next] using (hp' _).mp hf
-            | eor p f => simp [advance, next]
-            | wd p => simp [advance, next]
-            | timer => simp [advance, next]
+            show (next r (.rd i)).started = true ↔ _
+            rw [hstd]
+            constructor
+            · rintro (h | h)
+              · exact (htag0 hnc).mpr (Or.inl (hst.mp h))
+              · exact h
+            · exact Or.inr
         · intro hnone
-          simp only at hnone
           rw [ha3] at hnone
           by_cases hend : (endRemaining outs).isSome = true
-          · have hmc' := (sp.ended hmc).mp hend
-            rw [hadvw]
-            apply eq_nil_of_forall_not_mem
-            intro x hx
-            have := (hp' x).mpr hx
-            simp [hmc', pendingOf, pairs] at this
+          · rw [hadvw]; exact hdone.mp (hendc.mp hend)
           · simp [hend] at hnone
-        · intro f; simp only; rw [hfl, hheld]
+        · intro f; rw [hfl, hheld]
           by_cases hf : f ∈ relFams outs <;> simp [hf]
         · intro f n p
           rw [hpa]
@@ -346,9 +514,9 @@ theorem step_rd {cfg : Cfg} {s : St} {r : R} (hr : Rel s r) (i : RIn) (hwf : wf 
               obtain ⟨p, hp2⟩ := holds_iff.mp hh
               exact (hr.held_iff f).mpr (holds_iff.mpr ⟨p, hsub _ hp2⟩)
         · intro hns e he
-          have htr : ∀ q, tracked r q = false → tracked (advance r (.rd i)) q = false := by
+          have htr : ∀ q, tracked r q = false → tracked (advance cfg r (.rd i)) q = false := by
             intro q hq
-            cases h : tracked (advance r (.rd i)) q with
+            cases h : tracked (advance cfg r (.rd i)) q with
             | false => rfl
             | true =>
                 obtain ⟨f, hf⟩ := tracked_iff.mp h
@@ -367,8 +535,33 @@ theorem step_rd {cfg : Cfg} {s : St} {r : R} (hr : Rel s r) (i : RIn) (hwf : wf 
               exact htr _ (hr.up_inv (by simpa [advance, next] using hns) e he.1)
           | timer => exact htr _ (hr.up_inv (by simpa [advance, next] using hns) e (by simpa [advance, next] using he))
         · intro f hf
-          simp only; rw [ha4]
+          rw [ha4]
           exact hr.univ f (by simpa [advance, next_rd_deferred] using hf)
+        · intro h
+          have h' : timerAfter cfg r (next r (.rd i)) = true := h
+          rw [hadvw]
+          intro hwn
+          simp [timerAfter, hwn] at h'
+        · intro pend d hsd2
+          rw [ha3] at hsd2
+          by_cases hend : (endRemaining outs).isSome = true
+          · simp [hend] at hsd2
+          · simp only [hend, Bool.false_eq_true, ↓reduceIte, Option.some.injEq] at hsd2
+            -- an `AwaitingStart` result can only come from `AwaitingStart`, with the same duration
+            have hnd : isDeferring m' = false := by rw [hsd2]; rfl
+            have hnc : m' ≠ .completed := by rw [hsd2]; simp
+            have hmd : isDeferring m = false := by
+              cases h : isDeferring m with
+              | false => rfl
+              | true => have := (htag0 hnc).mpr (Or.inl h); rw [hnd] at this; cases this
+            cases m with
+            | completed => exact absurd rfl hmc
+            | deferring pd => simp [isDeferring] at hmd
+            | awaiting pd d0 =>
+                have hd0 := hr.dur pd d0 hsd
+                have := process_awaiting_dur pd d0 i
+                rw [hm', hsd2] at this
+                rw [← hd0]; exact this pend d rfl
 
 /-- RIB mutators: what the property needs from `insert_route` / `remove_route` / `drop_families` -/
 structure TabOp (t : Tabs) (rib : List (Fam × Nat × Peer)) (t' : Tabs) (rib' : List (Fam × Nat × Peer))
@@ -455,8 +648,8 @@ theorem drop_op (t : Tabs) (rib : List (Fam × Nat × Peer)) (p : Peer) (f : Fam
       obtain ⟨n, _, rfl⟩ := hc'; rfl
 
 /-- a RIB mutation is accepted by the checker and keeps the relation -/
-theorem step_tab {s : St} {r : R} (hr : Rel s r) (e : Ev) (f : Fam) (t' : Tabs) (changes : List Change)
-    (hne : isRd e = false)
+theorem step_tab {cfg : Cfg} {s : St} {r : R} (hr : Rel cfg s r) (e : Ev) (f : Fam) (t' : Tabs)
+    (changes : List Change) (hne : isRd e = false)
     (hw : (next r e).waiting = r.waiting) (hd : (next r e).deferred = r.deferred)
     (hrl : (next r e).released = r.released) (hs : (next r e).started = r.started)
     (hu : (next r e).up = r.up)
@@ -464,18 +657,28 @@ theorem step_tab {s : St} {r : R} (hr : Rel s r) (e : Ev) (f : Fam) (t' : Tabs) 
     let o : Obs := { outs := [], changes := changes,
                      tag := match s.sd with | some m => tagOf m | none => .absent,
                      pending := match s.sd with | some m => pendingOf m | none => [],
-                     installed := s.sd.isSome, flags := flagsOf t' s.univ }
-    stepOk (some e) r (next r e) o = .ok () ∧ Rel { s with tabs := t' } (advance r e) := by
+                     installed := s.sd.isSome, flags := flagsOf t' s.univ, timer := s.timer }
+    stepOk cfg (some e) r (next r e) o = .ok () ∧ Rel cfg { s with tabs := t' } (advance cfg r e) := by
   intro o
+  have ht : (next r e).timer = r.timer := next_timer r e
   have hnorel : releasedNow r (next r e) = [] := by
     apply eq_nil_of_forall_not_mem
     intro g hg
     obtain ⟨h1, h2⟩ := mem_releasedNow.mp hg
     rw [hw, (hr.held_iff g).mp h1] at h2; cases h2
-  have hadv : advance r e = next r e := by simp [advance, hnorel]
+  have htA : timerAfter cfg r (next r e) = r.timer := by
+    simp only [timerAfter, hw, hs]
+    cases h : r.timer with
+    | false => cases r.started <;> simp
+    | true =>
+        have := hr.timer_wait h
+        cases hwl : r.waiting with
+        | nil => exact absurd hwl this
+        | cons a l => simp
+  have hadv : advance cfg r e = next r e := by simp [advance, hnorel, htA, ← ht]
   have hheld : ∀ g, held (next r e) g = held r g := by intro g; simp [held, hd, hrl]
   have htr : ∀ q, tracked (next r e) q = tracked r q := by intro q; simp [tracked, hw]
-  refine ⟨stepOk_ok ?_ ?_ (by simp [hnorel]) (by simp [hnorel]) ?_ ?_ ?_ ?_, ?_⟩
+  refine ⟨stepOk_ok ?_ ?_ (by simp [hnorel]) (by simp [hnorel]) ?_ ?_ ?_ ?_ ?_ ?_ ?_ ?_ (fun h => by cases h), ?_⟩
   · intro c hc hh
     have hcf := hop.fam c hc
     have : (s.tabs f).deferring = true := by rw [hr.flags, ← hcf]; exact hh
@@ -499,24 +702,33 @@ theorem step_tab {s : St} {r : R} (hr : Rel s r) (e : Ev) (f : Fam) (t' : Tabs) 
         | nil => exact absurd hs' hset.1
         | cons g rest =>
             exact tracked_iff.mpr ⟨g, (hp _).mp (mem_pairs.mpr ⟨x.2, hx, by simp [hs']⟩)⟩
-  · intro ht
+  · intro ht'
     cases hsd : s.sd with
-    | none => simp [o, hsd] at ht
+    | none => simp [o, hsd] at ht'
     | some m => obtain ⟨_, _, hne', _, _⟩ := hr.sd_some m hsd; simpa [o, hsd] using hne'
   · intro hwn
     rw [hw] at hwn
     cases hsd : s.sd with
     | none => simp [o, hsd]
+    | some m => exact absurd hwn (waiting_ne_nil hr hsd)
+  · cases hsd : s.sd with
+    | none => simp [o, hsd]
     | some m =>
-        exfalso
-        obtain ⟨_, hwf, hne', hp, _⟩ := hr.sd_some m hsd
-        apply hne'
-        apply pend_nil_of_pairs_nil hwf
-        apply eq_nil_of_forall_not_mem
-        intro x hx; have := (hp x).mp hx; rw [hwn] at this; simp at this
+        obtain ⟨hmc, _⟩ := hr.sd_some m hsd
+        simp only [o, hsd]
+        cases m <;> simp_all [tagOf]
+  · intro hwn
+    rw [hw] at hwn
+    cases hsd : s.sd with
+    | none => exact absurd (hr.sd_none hsd) hwn
+    | some m => exact ⟨by simp only [o, hsd]; exact tagOf_ne_absent m, by simp [o, hsd]⟩
+  · simp only [o, hs]
+    cases r.started <;> simp
+  · simp only [o]; rw [htA]; exact hr.timer
   · rw [hadv]
     refine ⟨fun m hm => ?_, fun hn => by rw [hw]; exact hr.sd_none hn, fun g => ?_, hop.rib hr.rib, fun g => ?_,
-      fun hns x hx => ?_, fun g hg => hr.univ g (hd ▸ hg)⟩
+      fun hns x hx => ?_, fun g hg => hr.univ g (hd ▸ hg), (by rw [ht]; exact hr.timer),
+      (fun h => by rw [ht] at h; rw [hw]; exact hr.timer_wait h), hr.dur⟩
     · obtain ⟨a, b, c, d, e'⟩ := hr.sd_some m hm
       exact ⟨a, b, c, fun x => by rw [hw]; exact d x, by rw [hs]; exact e'⟩
     · show (t' g).deferring = _
@@ -524,8 +736,8 @@ theorem step_tab {s : St} {r : R} (hr : Rel s r) (e : Ev) (f : Fam) (t' : Tabs) 
     · rw [hheld, hw]; exact hr.held_iff g
     · rw [htr]; exact hr.up_inv (hs ▸ hns) x (hu ▸ hx)
 
-theorem step_ok {cfg : Cfg} {s : St} {r : R} (hr : Rel s r) (e : Ev) (hwf : wf cfg r e = true) :
-    stepOk (some e) r (next r e) (step s e).2 = .ok () ∧ Rel (step s e).1 (advance r e) := by
+theorem step_ok {cfg : Cfg} {s : St} {r : R} (hr : Rel cfg s r) (e : Ev) (hwf : wf cfg r e = true) :
+    stepOk cfg (some e) r (next r e) (step s e).2 = .ok () ∧ Rel cfg (step s e).1 (advance cfg r e) := by
   cases e with
   | rd i => exact step_rd hr i hwf
   | ins p f n =>
@@ -638,11 +850,13 @@ theorem startDeferralFamilies_spec (fs : List Fam) (t : Tabs) (g : Fam) :
       · simp [startDeferral, set_other _ _ h, h]
 
 theorem init_ok (cfg : Cfg) :
-    stepOk none {} (Spec.init cfg) (initObs cfg).2 = .ok () ∧ Rel (initObs cfg).1 (Spec.init cfg) := by
+    stepOk cfg none {} (Spec.init cfg) (initObs cfg).2 = .ok () ∧ Rel cfg (initObs cfg).1 (Spec.init cfg) := by
   have hwf := wfp_mkPending cfg.peers
   have hp : ∀ x, x ∈ pairs (mkPending cfg.peers) ↔ x ∈ (Spec.init cfg).waiting := fun x => mem_pairs_mkPending
   have hdef : (Spec.init cfg).deferred = (Spec.init cfg).waiting.map (·.2) := rfl
   have hrel0 : (Spec.init cfg).released = [] := rfl
+  have hst0 : (Spec.init cfg).started = false := rfl
+  have htm0 : (Spec.init cfg).timer = false := rfl
   have hheld : ∀ f, held (Spec.init cfg) f = holds f (Spec.init cfg).waiting := by
     intro f
     rw [Bool.eq_iff_iff, holds_iff]
@@ -663,32 +877,45 @@ theorem init_ok (cfg : Cfg) :
     rw [helpers_eq] at he
     rw [mem_dedup, List.mem_append]
     exact Or.inr (List.mem_flatMap.mpr ⟨e, dedupLast_sub he, hg⟩)
+  have hsn : (!({} : R).started && (Spec.init cfg).started) = false := by rw [hst0]; rfl
+  have htA : timerAfter cfg {} (Spec.init cfg) = false := by
+    simp only [timerAfter, hst0]
+    cases (Spec.init cfg).waiting.isEmpty <;> rfl
   by_cases hem : (mkPending cfg.peers).isEmpty = true
   · have hnil := isEmpty_iff_nil.mp hem
     have hw0 : (Spec.init cfg).waiting = [] :=
       eq_nil_of_forall_not_mem fun x hx => by have := (hp x).mpr hx; simp [hnil, pairs] at this
     have hio : initObs cfg = ({ univ := dedup (famUniverse ++ cfg.peers.flatMap (·.2)) },
         { outs := [], changes := [], tag := .absent, pending := [], installed := false,
-          flags := flagsOf (fun _ => {}) (dedup (famUniverse ++ cfg.peers.flatMap (·.2))) }) := by
-      simp [initObs, init, new, hem, isCompleted]
+          flags := flagsOf (fun _ => {}) (dedup (famUniverse ++ cfg.peers.flatMap (·.2))), timer := false }) := by
+      simp [initObs, init, new, hem, isCompleted, obsOf]
     rw [hio]
     refine ⟨stepOk_ok (by simp) (by simp [hnorel]) (by simp [hnorel]) (by simp [hnorel]) (by simp) (by simp) (by simp)
-      (fun _ => by simp), ?_⟩
+      (fun _ => by simp) (by simp) (fun h => absurd hw0 h) (by rw [hsn]; rfl) (by rw [htA])
+      (fun _ f hf => by rw [hdef, hw0] at hf; simp at hf), ?_⟩
     refine ⟨fun m hm => by simp at hm, fun _ => hw0, fun f => ?_, fun f n p => by simp [Spec.init], fun f => by rw [hheld],
-      fun _ e he => by simp [Spec.init] at he, huniv⟩
+      fun _ e he => by simp [Spec.init] at he, huniv, htm0.symm, (fun h => by rw [htm0] at h; cases h),
+      (fun pend d h => by simp at h)⟩
     rw [hheld, hw0]; rfl
   · have hne : mkPending cfg.peers ≠ [] := fun h => hem (isEmpty_iff_nil.mpr h)
     have hio : initObs cfg =
-        ({ sd := some (.awaiting (mkPending cfg.peers) cfg.dur),
+        ({ sd := some (.awaiting (mkPending cfg.peers) (effDur cfg.dur)),
            tabs := startDeferralFamilies (heldFams (mkPending cfg.peers)) (fun _ => {}),
            univ := dedup (famUniverse ++ cfg.peers.flatMap (·.2)) },
          { outs := [.deferFamilies (heldFams (mkPending cfg.peers))], changes := [], tag := .awaiting,
            pending := mkPending cfg.peers, installed := true,
            flags := flagsOf (startDeferralFamilies (heldFams (mkPending cfg.peers)) (fun _ => {}))
-             (dedup (famUniverse ++ cfg.peers.flatMap (·.2))) }) := by
-      simp [initObs, init, new, hem, isCompleted, tagOf, pendingOf]
+             (dedup (famUniverse ++ cfg.peers.flatMap (·.2))), timer := false }) := by
+      simp [initObs, init, new, hem, isCompleted, tagOf, pendingOf, obsOf, sdt_eq]
     rw [hio]
-    refine ⟨stepOk_ok (by simp) (by simp [hnorel]) (by simp [hnorel]) (by simp [hnorel]) (by simp) ?_ (fun _ => hne) ?_, ?_⟩
+    have hflag : ∀ f, ((startDeferralFamilies (heldFams (mkPending cfg.peers)) (fun _ => {})) f).deferring =
+        held (Spec.init cfg) f := by
+      intro f
+      rw [(startDeferralFamilies_spec _ _ f).1, hheld, Bool.eq_iff_iff]
+      simp only [Bool.or_false, List.contains_iff_mem, mem_heldFams]
+      rw [holdsP_iff_holds hp]
+    refine ⟨stepOk_ok (by simp) (by simp [hnorel]) (by simp [hnorel]) (by simp [hnorel]) (by simp) ?_ (fun _ => hne) ?_
+      (by simp) ?_ (by rw [hsn]; rfl) (by rw [htA]) ?_, ?_⟩
     · intro e he
       simp only at he
       have hset := hwf.sets e he
@@ -701,20 +928,24 @@ theorem init_ok (cfg : Cfg) :
       apply pend_nil_of_pairs_nil hwf
       apply eq_nil_of_forall_not_mem
       intro x hx; have := (hp x).mp hx; rw [hwn] at this; simp at this
-    · refine ⟨fun m hm => ?_, fun h => by simp at h, fun f => ?_, fun f n p => ?_, fun f => by rw [hheld],
-        fun _ e he => by simp [Spec.init] at he, huniv⟩
+    · intro _; simp
+    · intro _ f hf
+      refine mem_flagsOf.mpr ⟨huniv f hf, ?_⟩
+      rw [hflag]
+      simp [held, hrel0, hf]
+    · refine ⟨fun m hm => ?_, fun h => by simp at h, hflag, fun f n p => ?_, fun f => by rw [hheld],
+        fun _ e he => by simp [Spec.init] at he, huniv, htm0.symm, (fun h => by rw [htm0] at h; cases h),
+        (fun pend d h => ?_)⟩
       · simp only [Option.some.injEq] at hm; subst hm
         exact ⟨by simp, hwf, hne, hp, by simp [Spec.init, isDeferring]⟩
       · simp only
-        rw [(startDeferralFamilies_spec _ _ f).1, hheld, Bool.eq_iff_iff]
-        simp only [Bool.or_false, List.contains_iff_mem, mem_heldFams]
-        rw [holdsP_iff_holds hp]
-      · simp only
         rw [(startDeferralFamilies_spec _ _ f).2]; simp [Spec.init]
+      · simp only [Option.some.injEq, RInner.awaiting.injEq] at h
+        exact h.2.symm
 
 /-! ## the master theorem -/
 
-theorem checkFrom_ok (cfg : Cfg) (evs : List Ev) (s : St) (r : R) (i : Nat) (hr : Rel s r) :
+theorem checkFrom_ok (cfg : Cfg) (evs : List Ev) (s : St) (r : R) (i : Nat) (hr : Rel cfg s r) :
     checkFrom cfg r i evs (runFrom s evs).2 = .ok := by
   induction evs generalizing s r i with
   | nil => simp [runFrom, checkFrom]
